@@ -110,3 +110,8 @@ Print Assumptions C08_operator_layer_never_panics.
 Theorem C08_no_panic_instance : pwf_prog ex_prog = true.
 Proof. exact ex_prog_pwf. Qed.
 Print Assumptions C08_no_panic_instance.
+(* the site PanicProps leaves open is guarded by an invariant of the loader: a document built from a plain value is
+   key-consistent (Strat.wfv; evaluated on every document the implementation loads by the correspondence run) *)
+Theorem C08_loaded_documents_are_key_consistent : forall v p, wfv (annotate p v) = true.
+Proof. exact annotate_wfv. Qed.
+Print Assumptions C08_loaded_documents_are_key_consistent.
